@@ -121,6 +121,9 @@ type State struct {
 	callNo map[string]int // per-callee call ordinal along this path (top-level frame)
 	dead   bool
 	extra  map[string]*Value // misc named snapshots (e.g. loop-entry)
+	heads  map[string]*State  // state at the head of the current iteration, per loop
+	facts  map[string]bool    // atoms assumed on this path (exact term text -> truth value)
+	eqs    map[string]string  // term -> integer literal it is known to equal
 }
 
 func (s *State) top() *Frame { return s.frames[len(s.frames)-1] }
@@ -135,6 +138,15 @@ func (s *State) clone() *State {
 		trace:  s.trace[:len(s.trace):len(s.trace)],
 		callNo: make(map[string]int, len(s.callNo)),
 		extra:  s.extra,
+		heads:  s.heads,
+		facts:  make(map[string]bool, len(s.facts)),
+		eqs:    make(map[string]string, len(s.eqs)),
+	}
+	for k, v := range s.facts {
+		n.facts[k] = v
+	}
+	for k, v := range s.eqs {
+		n.eqs[k] = v
 	}
 	for k, v := range s.cells {
 		n.cells[k] = v
@@ -186,6 +198,107 @@ func (s *State) assume(t string) {
 		return
 	}
 	s.items = append(s.items, Item{Term: t})
+	s.learn(t, true)
+}
+
+// learn records simple atoms for syntactic branch folding.
+func (s *State) learn(t string, val bool) {
+	if s.facts == nil {
+		s.facts = map[string]bool{}
+		s.eqs = map[string]string{}
+	}
+	if strings.HasPrefix(t, "(not ") && strings.HasSuffix(t, ")") {
+		s.learn(t[5:len(t)-1], !val)
+		return
+	}
+	if val && strings.HasPrefix(t, "(and ") {
+		for _, p := range splitSexp(t[5 : len(t)-1]) {
+			s.learn(p, true)
+		}
+		return
+	}
+	if !val && strings.HasPrefix(t, "(or ") {
+		for _, p := range splitSexp(t[4 : len(t)-1]) {
+			s.learn(p, false)
+		}
+		return
+	}
+	if len(t) < 400 {
+		s.facts[t] = val
+	}
+	if val && strings.HasPrefix(t, "(= ") {
+		ps := splitSexp(t[3 : len(t)-1])
+		if len(ps) == 2 {
+			if _, ok := termIsIntLit(ps[1]); ok {
+				s.eqs[ps[0]] = ps[1]
+			} else if _, ok := termIsIntLit(ps[0]); ok {
+				s.eqs[ps[1]] = ps[0]
+			}
+		}
+	}
+}
+
+// known folds a condition using the recorded atoms; ok=false if undetermined.
+func (s *State) known(t string) (val bool, ok bool) {
+	if t == "true" {
+		return true, true
+	}
+	if t == "false" {
+		return false, true
+	}
+	if strings.HasPrefix(t, "(not ") && strings.HasSuffix(t, ")") {
+		v, ok := s.known(t[5 : len(t)-1])
+		return !v, ok
+	}
+	if v, ok := s.facts[t]; ok {
+		return v, true
+	}
+	if strings.HasPrefix(t, "(= ") {
+		ps := splitSexp(t[3 : len(t)-1])
+		if len(ps) == 2 {
+			a, b := ps[0], ps[1]
+			if _, isLit := termIsIntLit(a); isLit {
+				a, b = b, a
+			}
+			if lit, isLit := termIsIntLit(b); isLit {
+				if k, have := s.eqs[a]; have {
+					kv, _ := termIsIntLit(k)
+					return kv == lit, true
+				}
+			}
+		}
+	}
+	if strings.HasPrefix(t, "(and ") {
+		all := true
+		for _, p := range splitSexp(t[5 : len(t)-1]) {
+			v, ok := s.known(p)
+			if ok && !v {
+				return false, true
+			}
+			if !ok {
+				all = false
+			}
+		}
+		if all {
+			return true, true
+		}
+	}
+	if strings.HasPrefix(t, "(or ") {
+		all := true
+		for _, p := range splitSexp(t[4 : len(t)-1]) {
+			v, ok := s.known(p)
+			if ok && v {
+				return true, true
+			}
+			if !ok {
+				all = false
+			}
+		}
+		if all {
+			return false, true
+		}
+	}
+	return false, false
 }
 
 func (s *State) note(f string, a ...any) {
